@@ -406,7 +406,9 @@ func genVec(r *rand.Rand, dim int) []float32 {
 }
 
 var metaStrings = []string{"red", "green", "blue", "x y", "10", "true", "a'b"}
-var metaTexts = []string{"the quick brown fox", "lazy dogs sleeping", "running foxes run quickly", "il gatto dorme", "fox", "cani che corrono", "a quick note about dogs"}
+// the last three analyse to zero tokens (empty, stop words only): such documents count in the corpus
+// statistics (N, average length) while matching no query
+var metaTexts = []string{"the quick brown fox", "lazy dogs sleeping", "running foxes run quickly", "il gatto dorme", "fox", "cani che corrono", "a quick note about dogs", "", "the", "it is of the"}
 
 func (gs *GenState) genMeta(r *rand.Rand, gi *GenIdx) map[string]any {
 	if r.Intn(5) == 0 {
